@@ -91,12 +91,9 @@ func c24Suites(label string, max int) []uint16 {
 func VerifH_C24_cipher_suite_selection() {
 	c24SendAlertStub()
 	hasAESGCMHardwareSupport = true // explicit lists; no AES-GCM deprioritisation (stated bound)
-	max := 2
-	if vr.Tier() == 1 {
-		max = 3
-	}
+	max := 2 // three suites per side exceed 200000 paths in either tier
 	client := c24Suites("client", max)
-	server := c24Suites("server", max)
+	server := c24Suites("server", max+vr.Tier())
 	if server == nil {
 		server = []uint16{}
 	}
